@@ -133,6 +133,23 @@ def fam6():
             yield (["S(x) #x", "I(x) x", "C(x,y) x ## y", "e 7"], inv)
 
 
+XS = ["C(a,b)", "k+C(a,b)", "k+ C(a,b)", "C(a,b)+k", "C(a, b) +k", "I(a)I(b)", "I( a )", "C(a,b)C(c,d)", "k C( a , b )", "(C(a,b))", "I()+I()", "-I(-1)", "I(I(k)+k)",
+      "C(,b)", "C(a,)", "C(,)+k", "k+A", "k +A", "A+k", "(A)", "A A", "-A", "I(A)", "I(+A)", "I(A+)", "C(A,A)", "E+k", "k+E+k", "k E k", "I(E)+k", "P(a)", "+P(a)", "P( a )+k",
+      "k+G", "G+k", "I(G)(1)", "k+G(1)", "G (1) +k", "V(a,b)", "k+V( a , b )", "V()+k", "T(a)", "k+T(a)",
+      "D(a,b)", "D( a,b)", "k+D( a , b )", "D(,b)", "D( a,)", "D(I( a ),b)"]
+
+
+def fam7():
+    """white-space fidelity: the text handed to # after full expansion (the xstr idiom).  Spacing in front of the first token
+    of every kind of replacement (object-like, function-like, pasted, empty, argument, variadic, stringified) is inherited
+    from the macro name it replaces, never from the definition."""
+    defs = ["S(x) #x", "X(x) S(x)", "C(x,y) x ## y", "I(x) x", "k 7", "A 1", "E", "P(x) + x", "G I", "V(...) __VA_ARGS__", "T(x) # x", "D(x,y) (x ## y)-x"]
+    for t in XS:
+        yield (defs, f"X({t})")
+        yield (defs, f"X( {t} )")
+        yield (defs, f"X(k {t})")
+
+
 STD = [   # ISO C 6.10.3.5 examples 3, 4, 5, 7 (each judged in its own gcc run)
     (["x 3", "f(a) f(x * (a))", "g f", "z z[0]", "h g(~", "m(a) a(w)", "w 0,1", "t(a) a", "p() int", "q(x) x", "r(x,y) x ## y", "str(x) # x"],
      ["f(y+1) + f(f(z)) % t(t(g)(0) + t)(1);", "g(x+(3,4)-w) | h 5) & m (f)^m(m);", "p() i[q()] = { q(1), r(2,3), r(4,), r(,5), r(,) };",
@@ -372,10 +389,10 @@ def run(tier):
     rep = Report(ID, "exploration")
     if tier == "quick":
         fams = {"single F(x,y), bodies<=2": fam1(2), "F(x,y) bodies of 3..4 phrases over {x y ## 1 k +} + helper macros": fam1b(4), "F(x)+G(y), bodies<=2 (small alphabet)": fam2(2, True), "object-like A,B, bodies<=2": fam3(2),
-                "variadic, bodies<=2": fam4(2), "balanced invocations<=4 x 11 tables": fam5(4), "lexical shapes x 8 uses": fam6()}
+                "variadic, bodies<=2": fam4(2), "balanced invocations<=4 x 11 tables": fam5(4), "lexical shapes x 8 uses": fam6(), "xstr(...) white-space fidelity": fam7()}
     else:
         fams = {"single F(x,y), bodies<=3": fam1(3), "F(x,y) bodies of 3..5 phrases over {x y ## 1 k +} + helper macros": fam1b(5), "F(x)+G(y), bodies<=2": fam2(2, False), "object-like A,B, bodies<=3 (k=2 for B)": fam3(2),
-                "variadic, bodies<=3": fam4(3), "balanced invocations<=5 x 11 tables": fam5(5), "lexical shapes x 8 uses": fam6()}
+                "variadic, bodies<=3": fam4(3), "balanced invocations<=5 x 11 tables": fam5(5), "lexical shapes x 8 uses": fam6(), "xstr(...) white-space fidelity": fam7()}
     # seed-selected extension: fam1 bodies of length 3 starting with a seed-chosen phrase
     P = ["x", "y", "#x", "##", "1", "k", "+", "(x)", ",", "F(x,y)"]
     first = P[env.SEED % len(P)]
